@@ -295,6 +295,18 @@ impl VDesc {
                     let mut r = Rng::new(0x5a5a ^ i as u64);
                     c[i % 12] = fq_from_rng(&mut r);
                     fq12_from(&c)
+                } else if let Some(m) = k.strip_prefix("mask:") {
+                    // random coefficients where the 12-bit mask has a 1, zero elsewhere (c1 == 0, a zero Fq2, ...)
+                    let m: usize = m.parse().map_err(|_| "mask")?;
+                    let mut r = Rng::new(0x3a3a ^ m as u64);
+                    let mut c = [Fq::zero(); 12];
+                    for (j, x) in c.iter_mut().enumerate() {
+                        let v = fq_from_rng(&mut r);
+                        if (m >> j) & 1 == 1 {
+                            *x = v;
+                        }
+                    }
+                    fq12_from(&c)
                 } else if let Some(n) = k.strip_prefix("seed:") {
                     let n: u64 = n.parse().map_err(|_| "seed")?;
                     let mut r = Rng::new(n ^ 0xf912);
